@@ -26,6 +26,8 @@ def run(ctx):
     ctx.need(not dump["errors"], "ISA dump reported errors: %s" % dump["errors"][:2])
     c07.check_arch(ctx, dump, "x86_64", "C04", returns=True)
     c29.grammar_cells(ctx, dump, "x86_64", "C04.R2", narrow_arith=False)
+    ctx.rule("C04.R8", "the destination of a read-modify-write instruction (shift, add, neg, ...) in a pattern is never one of the pattern's input registers", floor=30)
+    c07.x86_destination_not_an_input(ctx, dump, "C04.R8")
     ctx.rule("C04.R5", "shift by cl: the count register is loaded immediately before the shift instruction that reads it implicitly", floor=20)
     c07.implicit_operand_windows(ctx, dump, "x86_64", "C04.R5")
     from .c05 import phi_lowering
